@@ -166,8 +166,12 @@ def proof_status(pid, regen_log="", tier="quick"):
     st["closed"] = r.stdout.count("Closed under the global context")
     if tier == "thorough" and not os.environ.get("VERIF_NO_COQCHK"):
         try:
-            with vbuild.Lock("coq"):
-                rc2 = subprocess.run(["coqchk", "-silent", "-o", "-Q", ".", "LP", f"LP.Properties_{pid}"], cwd=COQ, stdout=subprocess.PIPE, stderr=subprocess.STDOUT, text=True, timeout=1500)
+            # coqchk only reads the compiled files and takes minutes: it runs without the build lock (other checks keep going); should a
+            # concurrent build have replaced a .vo under it, it is repeated once under the lock
+            rc2 = subprocess.run(["coqchk", "-silent", "-o", "-Q", ".", "LP", f"LP.Properties_{pid}"], cwd=COQ, stdout=subprocess.PIPE, stderr=subprocess.STDOUT, text=True, timeout=1500)
+            if rc2.returncode != 0:
+                with vbuild.Lock("coq"):
+                    rc2 = subprocess.run(["coqchk", "-silent", "-o", "-Q", ".", "LP", f"LP.Properties_{pid}"], cwd=COQ, stdout=subprocess.PIPE, stderr=subprocess.STDOUT, text=True, timeout=1500)
             summ = rc2.stdout[rc2.stdout.find("CONTEXT SUMMARY"):] if "CONTEXT SUMMARY" in rc2.stdout else rc2.stdout[-1500:]
             st["coqchk"] = {"exit": rc2.returncode, "summary": re.sub(r"\s+", " ", summ)[:4000]}
             if rc2.returncode != 0:
